@@ -36,6 +36,7 @@ float nondet_float(void);
 #define VF_COVER(c) __CPROVER_cover(c)
 #define VF_IN(T, name) name = nondet_##T()
 #define VF_IN_ARR(name) __CPROVER_havoc_object(name)
+#define VF_IN_ARR2(name) __CPROVER_havoc_object(name)
 #define VF_R_OK(p, n) __CPROVER_r_ok((p), (n))
 #define VF_W_OK(p, n) __CPROVER_w_ok((p), (n))
 #define VF_ENUM(E, C) E##_##C
@@ -50,6 +51,7 @@ extern "C" {
 extern int vf_failed;
 uint64_t vf_input(const char *name, uint64_t dflt);
 void vf_input_arr(const char *name, void *dst, size_t elem, size_t n);
+void vf_input_arr2(const char *name, void *dst, size_t elem, size_t n, size_t m);
 void vf_load(const char *path);
 void vf_out(const char *name, uint64_t v);
 #ifdef __cplusplus
@@ -72,6 +74,7 @@ static inline float vf_bits_float(uint32_t b) { float d; memcpy(&d, &b, 4); retu
 #define VF_COVER(c) ((void)0)
 #define VF_IN(T, name) name = vf_cast_##T(vf_input(#name, 0))
 #define VF_IN_ARR(name) vf_input_arr(#name, name, sizeof(name[0]), sizeof(name) / sizeof(name[0]))
+#define VF_IN_ARR2(name) vf_input_arr2(#name, name, sizeof(name[0][0]), sizeof(name) / sizeof(name[0]), sizeof(name[0]) / sizeof(name[0][0]))
 #define VF_R_OK(p, n) ((p) != NULL || (n) == 0)
 #define VF_W_OK(p, n) ((p) != NULL || (n) == 0)
 #define VF_ENUM(E, C) gdstk::E::C
